@@ -749,8 +749,32 @@ func (c *Ctx) checkDefFragment(fn *ssa.Function, loops []*mapLoop) string {
 	if updates != 1 {
 		return fmt.Sprintf("%d updates in the inner loop instead of one", updates)
 	}
-	if len(inner.region) != 1 || len(last.region) != 1 {
+	if len(inner.region) != 1 {
 		return "a loop body of the fragment contains control flow (the argument covers unconditional substitution only)"
+	}
+	if len(last.region) != 1 {
+		// the only control flow the argument tolerates in the substitution loop: skipping the
+		// ReplaceAll when the text does not contain the needle, which is what ReplaceAll does anyway
+		for b := range last.region {
+			iff, ok := b.Instrs[len(b.Instrs)-1].(*ssa.If)
+			if !ok || b == last.header {
+				continue
+			}
+			cond, _ := unwrapNot(iff.Cond)
+			call, ok := cond.(*ssa.Call)
+			okGuard := false
+			if ok {
+				f := staticCallee(&call.Call)
+				if (isFn(f, "bytes", "Contains") || isFn(f, "strings", "Contains")) && len(call.Call.Args) == 2 {
+					if k, ok := needleKey(call.Call.Args[1]); ok && k == last.key && dependsOnCarried(call.Call.Args[0], last) {
+						okGuard = true
+					}
+				}
+			}
+			if !okGuard {
+				return "a loop body of the fragment contains control flow (the argument covers unconditional substitution, or substitution skipped when the text does not contain the reference)"
+			}
+		}
 	}
 	// the outer loop body is straight-line apart from the inner loop
 	for b := range outer.region {
@@ -793,7 +817,21 @@ func (c *Ctx) checkDefFragment(fn *ssa.Function, loops []*mapLoop) string {
 	// the header of the last loop carries exactly one value
 	n := 0
 	for _, in := range last.header.Instrs {
-		if _, ok := in.(*ssa.Phi); ok {
+		if ph, ok := in.(*ssa.Phi); ok {
+			// a boolean "something was replaced" flag carries no text
+			if isBoolType(ph) {
+				flag := true
+				for _, e := range ph.Edges {
+					if _, isC := e.(*ssa.Const); !isC && e != ssa.Value(ph) {
+						if p2, isP := e.(*ssa.Phi); !isP || !isBoolType(p2) {
+							flag = false
+						}
+					}
+				}
+				if flag {
+					continue
+				}
+			}
 			n++
 		}
 	}
@@ -983,13 +1021,24 @@ func (c *Ctx) RuleNondetSrc(commands []string) *Result {
 						what = "os.Args (how the process was started)"
 					}
 				case *ssa.Call:
+					if x.Call.IsInvoke() && x.Call.Method.Name() == "ModTime" {
+						what = "the modification time of a file (ModTime)"
+					}
 					f := staticCallee(&x.Call)
 					if f == nil {
-						return
+						break
 					}
 					names, ok := nondetFns[objPkgPath(f)]
 					if ok && (names == nil || names[f.Name()]) {
 						what = qualName(f)
+					}
+					switch {
+					case objPkgPath(f) == "os" && recvNamed(f) == "File" && (f.Name() == "ReadDir" || f.Name() == "Readdir" || f.Name() == "Readdirnames"):
+						what = qualName(f) + " (directory entries in the order the file system keeps them; os.ReadDir and filepath.WalkDir sort)"
+					case objPkgPath(f) == "os" && (f.Name() == "Getenv" || f.Name() == "LookupEnv" || f.Name() == "Environ"):
+						what = qualName(f) + " (the environment of the process is not one of the files the output may depend on)"
+					case f.Name() == "ModTime":
+						what = "the modification time of a file (" + qualName(f) + ")"
 					}
 				}
 				if what == "" {
